@@ -54,7 +54,7 @@ def run_failing(scen: dict, sched: list[dict], storage, entry: str, fail: dict) 
         with contextlib.redirect_stdout(io.StringIO()):
             pl = build.make_pipeline(pdesc)
         out["pl"] = pl
-        inp = pmap.inputs_to_py(scen["inputs"], {})
+        inp = pmap.inputs_to_py(scen["inputs"], {n: fail["kinds"] for n, _ in scen["inputs"]} if fail.get("kinds") else {})
         with exec_ctl.with_script(script):
             if entry == "map":
                 out["r"] = pmap.do_map(pl, pdesc, inp, run_folder=tmp, storage=storage, parallel=True, executor=ex,
